@@ -49,6 +49,9 @@ func registerTimeIntrinsics() {
 	in["(time.Time).Nanosecond"] = func(fr *frame, a []Value) Value { _, n := timeParts(a[0]); return n }
 	in["(time.Time).UnixNano"] = func(fr *frame, a []Value) Value {
 		s, n := timeParts(a[0])
+		if n.IsConst() && n.val == 0xffffffffffffffff {
+			return s // built by zzverif.TimeFromUnixNano
+		}
 		return fr.x.f.UF("time_unixnano", 64, s, n)
 	}
 	in["(time.Time).UnixMilli"] = func(fr *frame, a []Value) Value {
